@@ -5,6 +5,7 @@
 // core computes the standard digest of the bytes it is fed, in any chunking (std_digest is uninterpreted), and that
 // io::copy / BufRead::split deliver the reader's bytes independently of the read schedule.
 //@ unit digest
+//@ prop C12 C13 C17 : hash_file_internal hash_patch_internal hash_str_internal hash_file hash_patch hash_str lemma_hex_shape shim_io_copy shim_reader_split_nl shim_contains_netbsd shim_hex2
 #![allow(unused_imports)]
 use vstd::prelude::*;
 use vstd::utf8::*;
@@ -39,12 +40,7 @@ impl From<std::io::Error> for DigestError {
 }
 //@ end
 
-// ---------------- the external world ----------------
-/// the digest the STANDARD algorithm `a` defines for `data` (uninterpreted: computed by the RustCrypto cores)
-pub uninterp spec fn std_digest(a: Digest, data: Seq<u8>) -> Seq<u8>;
-/// what a reader delivers in total, whatever the sizes of the individual reads and however often a read is
-/// Interrupted: Ok(all bytes up to end-of-file) or Err (a hard I/O error somewhere in the read sequence)
-pub uninterp spec fn stream_of<R>(r: R) -> core::result::Result<Seq<u8>, ()>;
+//@ include lib/digest_spec.rs
 
 /// stand-in for the RustCrypto `digest` crate: a hasher accumulates the bytes it is fed; finalize() is the standard digest of them
 pub mod digest {
@@ -72,13 +68,6 @@ fn shim_io_copy<R: Read, D: digest::Digest>(reader: &mut R, hasher: &mut D) -> (
     })
 { unimplemented!() }
 
-/// BufRead::split(b'\n'): the pieces between newlines, without the newline; no empty piece after a final newline
-pub open spec fn bsplit_nl(b: Seq<u8>) -> Seq<Seq<u8>> decreases b.len() {
-    if b.len() == 0 { seq![] } else {
-        let i = b.index_of(0x0au8);
-        if !b.contains(0x0au8) { seq![b] } else { seq![b.take(i)] + bsplit_nl(b.skip(i + 1)) }
-    }
-}
 // shim D6.bufreader_split_nl
 #[verifier::external_body]
 fn shim_reader_split_nl<R: Read>(reader: &mut R) -> (r: Vec<std::io::Result<Vec<u8>>>)
@@ -88,30 +77,12 @@ fn shim_reader_split_nl<R: Read>(reader: &mut R) -> (r: Vec<std::io::Result<Vec<
     })
 { BufReader::new(reader).split(b'\n').collect() }
 
-pub open spec fn NETBSD() -> Seq<u8> { seq![0x24u8, 0x4eu8, 0x65u8, 0x74u8, 0x42u8, 0x53u8, 0x44u8] }   // "$NetBSD"
-pub open spec fn has_marker(line: Seq<u8>) -> bool { exists|k: int| 0 <= k && k + 7 <= line.len() && #[trigger] line.subrange(k, k + 7) == NETBSD() }
 // shim D6.windows_any_netbsd
 #[verifier::external_body]
 fn shim_contains_netbsd(line: &Vec<u8>) -> (r: bool)
     ensures r == has_marker(line@)
 { line.windows(7).any(|window| window == b"$NetBSD") }
 
-/// statement of C13 for patches: every line that contains '$NetBSD' is removed; every kept line is newline-terminated
-/// (a final unterminated line counts as terminated)
-pub open spec fn patch_filter_upto(pieces: Seq<Seq<u8>>, n: int) -> Seq<u8> decreases n {
-    if n <= 0 || n > pieces.len() { Seq::<u8>::empty() } else {
-        let p = pieces[n - 1];
-        if has_marker(p) { patch_filter_upto(pieces, n - 1) } else { patch_filter_upto(pieces, n - 1) + p + seq![0x0au8] }
-    }
-}
-pub open spec fn patch_filter(b: Seq<u8>) -> Seq<u8> { patch_filter_upto(bsplit_nl(b), bsplit_nl(b).len() as int) }
-
-pub open spec fn hexd(n: int) -> char { seq!['0', '1', '2', '3', '4', '5', '6', '7', '8', '9', 'a', 'b', 'c', 'd', 'e', 'f'][n] }
-pub open spec fn hex2(b: u8) -> Seq<char> { seq![hexd(b as int / 16), hexd(b as int % 16)] }
-/// lower-case hex, two digits per byte, in order
-pub open spec fn hex_seq(bs: Seq<u8>) -> Seq<char> decreases bs.len() {
-    if bs.len() == 0 { Seq::<char>::empty() } else { hex_seq(bs.drop_last()) + hex2(bs.last()) }
-}
 // shim D8.format_hex2
 #[verifier::external_body]
 fn shim_hex2(b: u8) -> (r: String)
